@@ -44,3 +44,42 @@ fn c19_union_find_closure() {
     kani::cover!(want[0][1] && want[1][2] && want[2][3]);
     std::mem::forget(uf);
 }
+
+//@ property: C19
+//@ tier: quick
+//@ cap_s: 400
+//@ encodes: UnionFind::{new,find,union,connected}
+//@ symbolic: two union(x,y) calls with symbolic x,y in 0..3, then a repeated union and a self union
+//@ bound: 3 elements, 2 + 2 unions
+//@ oracle: union(x,x) never merges; repeating a union never merges again; the number of classes equals 3 minus the number of successful merges; connected is an equivalence (reflexive, symmetric, transitive on all triples)
+#[kani::proof]
+#[kani::unwind(5)]
+fn c19_union_find_equivalence_and_counts() {
+    let mut uf = UnionFind::new(3);
+    let (x0, y0, x1, y1): (usize, usize, usize, usize) = (kani::any(), kani::any(), kani::any(), kani::any());
+    kani::assume(x0 < 3 && y0 < 3 && x1 < 3 && y1 < 3);
+    let mut merges = 0;
+    if uf.union(x0, y0) { merges += 1; }
+    if uf.union(x1, y1) { merges += 1; }
+    assert!(!uf.union(x1, y1), "repeating a union merged again");
+    assert!(!uf.union(x0, x0), "a self union merged");
+    // classes = number of roots
+    let mut roots = 0; let mut i = 0;
+    while i < 3 { if uf.find(i) == i { roots += 1; } i += 1; }
+    assert!(roots == 3 - merges, "class count disagrees with the number of successful merges");
+    let mut a = 0;
+    while a < 3 {
+        assert!(uf.connected(a, a));
+        let mut b = 0;
+        while b < 3 {
+            assert!(uf.connected(a, b) == uf.connected(b, a));
+            let mut c = 0;
+            while c < 3 { if uf.connected(a, b) && uf.connected(b, c) { assert!(uf.connected(a, c)); } c += 1; }
+            b += 1;
+        }
+        a += 1;
+    }
+    kani::cover!(merges == 2);
+    kani::cover!(merges == 0);
+    std::mem::forget(uf);
+}
